@@ -11,7 +11,9 @@ import (
 var SepsBasic = []string{"", "\t", "\v", "\f", "\r", "\n", "\r\n", "\u0085", " ", "  ", " \n ", "\n\n", "\r\n\t"}
 
 // Comments with tricky bodies, each ended by LF or CR.
-var SepsComments = []string{"#c\n", "#\n", "#\r", " # \"q\n", "#\\\n", "# print 1\n", "#é ü\n", "## ;\n", "#)\r", "# \u0085 x )\n", "#  \r\n", "#}\n#{\n"}
+var SepsComments = []string{"#c\n", "#\n", "#\r", " # \"q\n", "#\\\n", "# print 1\n", "#é ü\n", "## ;\n", "#)\r", "# \u0085 x )\n", "#  \r\n", "#}\n#{\n",
+	// characters whose code point ends in the byte of LF / CR / space / NBSP (U+010A, U+010D, U+4E0A, U+0120, U+01A0)
+	"#\u010d x )\n", "# \u010a print 1\n", "#\u4e0a ;\r", "#\u0120\u01a0 (\n"}
 
 // SplitTokens splits a source into token texts plus a verbatim tail (the text after
 // the last complete token: trailing layout or the text of a lexical failure).
